@@ -200,6 +200,49 @@ def check_cbound(case):
     vel = [0.0, 0.0, 0.0]
     vel[direction] = speed
     c = k * charge
+    if rho2 == 0.0:
+        # units exactly aligned with the direction of motion: the path runs through the singularities of the 1/r images.
+        # Repulsive: the barrier in front is infinite, every budget is reached before it.  Attractive: the budget is
+        # either reached on the way out to L/2, or the unit falls into the next image (the code reports the distance to
+        # that singularity).  Closed forms of the one-dimensional problem.
+        ca = abs(c)
+        for sd in sds:
+            if abs(sd) < 1e-3 * L or abs(sd) > L / 2:
+                continue
+            for E in (1e-3 * ca / L, 0.5 * ca / L, 20.0 * ca / L):
+                nev += 1
+                s = sep(direction, sd, 0.0, 0.0)
+                r0 = abs(sd)
+                if c > 0:
+                    if sd > 0:
+                        want = r0 - 1.0 / (E / ca + 1.0 / r0)
+                    else:
+                        want = (L / 2 - r0) + (L / 2 - 1.0 / (E / ca + 2.0 / L))
+                else:
+                    if sd > 0:
+                        want = r0
+                    else:
+                        gain = ca * (1.0 / r0 - 2.0 / L)
+                        want = 1.0 / (1.0 / r0 - E / ca) - r0 if E < gain * (1 - 1e-9) else (
+                            L - r0 if E > gain * (1 + 1e-9) else None)
+                try:
+                    t = pot.displacement(vel, s, 1.0, charge, E)
+                except Exception as e:
+                    fails.append(("totality", "cbound k=%r L=%r charge=%r direction=%d aligned separation=%r budget=%r "
+                                  "raised %r" % (k, L, charge, direction, s, E, e)))
+                    continue
+                if not isinstance(t, float) or t != t or t < -1e-12 * L:
+                    fails.append(("totality", "cbound k=%r L=%r charge=%r direction=%d aligned separation=%r budget=%r "
+                                  "returned %r" % (k, L, charge, direction, s, E, t)))
+                    continue
+                sigs.add(("cbound", charge > 0, sd > 0, "aligned"))
+                if want is not None and abs(t * speed - want) > 1e-9 * L:
+                    fails.append(("uphill-identity", "periodic Coulomb bound k=%r L=%r charge=%r direction=%d aligned "
+                                  "separation=%r budget=%r: returned distance %r, the one-dimensional closed form gives "
+                                  "%r" % (k, L, charge, direction, s, E, t * speed, want)))
+        import jellyfysh.setting as setting
+        setting.reset()
+        return (frozenset(sigs), nev), fails
     for sd in sds:
         if rho2 + sd * sd < 1e-8 or abs(sd) > L / 2:
             continue
@@ -417,9 +460,11 @@ def cases(ctx):
     for k in (1.5837, 1.6, 531.2):
         for L in (1.0, 2.5, 10.0):
             for charge in (1.0, -1.0, 0.5):
-                for rho in (0.02 * L, 0.1 * L, 0.3 * L, 0.6 * L):
+                for rho in (0.0, 0.02 * L, 0.1 * L, 0.3 * L, 0.6 * L):
                     for phi in (0.0, 0.7):
                         for direction in (0, 1, 2):
+                            if rho == 0.0 and phi != 0.0:
+                                continue
                             if not ctx.thorough and (phi == 0.7 and direction != 2 or k == 1.6):
                                 continue
                             sds = uniq(around(0.0, 3) + around(L / 2, 0) + around(-L / 2, 0) +
